@@ -108,6 +108,13 @@ fn payload_set_with(rng: &mut Rng, format: TileFormat, c: Comp, huge: bool) -> T
 			tiles.insert((z + 1, 2 * x0 + dx, 2 * y0 + dy), comp::compress(body, c));
 		}
 	}
+	// two tiles of the same length that share their first 4000 (incompressible) bytes and differ in the last 96
+	let shared = rng.bytes(4000);
+	for (i, dx) in [(0u32, 0u32), (1, 1)] {
+		let mut p = shared.clone();
+		p.extend_from_slice(format!("{:<96}", format!("tile number {i} of the pair at z{}", z + 1)).as_bytes());
+		tiles.insert((z + 1, 2 * x0 + dx, 2 * y0 + 6), comp::compress(&p, c));
+	}
 	// a tile whose decoded payload is empty (e.g. an empty vector tile); only representable when the
 	// stored form is non-empty, i.e. for compressed sources
 	if c != Comp::None {
@@ -124,8 +131,8 @@ fn run_case(cx: &CaseCtx, rep: &mut Report) {
 	let force = (combo / 12) % 2 == 1;
 	let target = TARGETS[((combo / 24) % 5) as usize];
 	let out_comp = opt.unwrap_or(src_comp);
-	if cx.case < 3 {
-		algebra(rep, &mut rng);
+	if cx.case < 3 && !cx.tier.is_tiny() {
+		algebra(rep, &mut rng, cx.case == 0);
 	}
 	if combo % 24 == 5 {
 		cli_override(cx, rep, &mut rng, combo);
@@ -452,7 +459,39 @@ fn cli_override(cx: &CaseCtx, rep: &mut Report, rng: &mut Rng, combo: u64) {
 }
 
 /// compress / decompress / recompress of versatiles_core::utils against the harness's codecs
-fn algebra(rep: &mut Report, rng: &mut Rng) {
+fn algebra(rep: &mut Report, rng: &mut Rng, big_too: bool) {
+	// a payload beyond 2^26 bytes (one tile of a coarse raster, a big GeoJSON): decoding gives all of it
+	if big_too {
+		// ... and the other way round: a payload just beyond 2^24 bytes through the project's encoders
+		let n2 = (16usize << 20) + 4096;
+		let mid: Vec<u8> = (0..n2).map(|i| ((i * 7) ^ (i >> 9)) as u8).collect();
+		for c in [Comp::Gzip, Comp::Brotli] {
+			rep.eval();
+			rep.count("payloads_beyond_16MiB_encoded", 1);
+			let r = guard::catch(|| vu::compress(Blob::from(mid.clone()), &c.to_core()).map_err(|e| format!("{e:#}")).and_then(|b| comp::decompress(b.as_slice(), c)));
+			match r {
+				Ok(Ok(back)) if back == mid => {}
+				Ok(Ok(back)) => rep.violation(&format!("algebra|big-payload-encoded|{}", c.name()), "a payload beyond 16 MiB encoded by the project does not decode to itself with an independent decoder", json!({"compression": c.name(), "payload_len": n2, "decoded_len": back.len()})),
+				Ok(Err(e)) => rep.violation(&format!("algebra|big-payload-encoded|{}", c.name()), "a payload beyond 16 MiB encoded by the project does not decode with an independent decoder", json!({"compression": c.name(), "payload_len": n2, "error": e})),
+				Err(p) => rep.violation(&p.signature("compress"), "encoding panicked", json!({"panic": p.describe()})),
+			}
+		}
+		let n = (64usize << 20) + 4321;
+		let mut big: Vec<u8> = b"sixty-four MiB and a bit ".iter().cycle().take(n).cloned().collect();
+		big[n - 9..].copy_from_slice(b"THE END.\n");
+		for c in [Comp::Gzip, Comp::Brotli] {
+			let packed = Blob::from(comp::compress(&big, c));
+			rep.eval();
+			rep.count("payloads_beyond_64MiB_decoded", 1);
+			let got = guard::catch(|| vu::decompress(packed.clone(), &c.to_core()));
+			match got {
+				Ok(Ok(b)) if b.as_slice() == big.as_slice() => {}
+				Ok(Ok(b)) => rep.violation(&format!("algebra|big-payload|{}", c.name()), "decoding a payload beyond 64 MiB does not give the payload", json!({"compression": c.name(), "payload_len": n, "decoded_len": b.len()})),
+				Ok(Err(e)) => rep.violation(&format!("algebra|big-payload-rejected|{}", c.name()), "a valid stream of a payload beyond 64 MiB is rejected", json!({"compression": c.name(), "payload_len": n, "error": format!("{e:#}")})),
+				Err(p) => rep.violation(&p.signature("decompress"), "decoding panicked", json!({"panic": p.describe()})),
+			}
+		}
+	}
 	let blobs: Vec<Vec<u8>> = vec![vec![], vec![7], rng.bytes(10), rng.bytes(70_000), b"abc".iter().cycle().take(200_000).cloned().collect(), vec![0u8; 65_536], vec![0u8; 65_537]];
 	for raw in &blobs {
 		for a in comp::ALL {
